@@ -139,6 +139,10 @@ structure Graph where
   live group-start member that has *some* completed output (`true`, code as found) or only the
   prerequisites on its completed outputs (`false`, repaired) -/
   anyOutput : Bool := true
+  /-- behaviour flag (probed from the live code): `_set_prereqs_tdef` hands back -- and the command then
+  triggers -- the new object even when the pool already holds a proxy of that instance, so that a second,
+  unpooled object is submitted (`true`, code as found); `false`: such an object is dropped (repaired) -/
+  triggerUnpooled : Bool := true
   deriving Repr, Inhabited
 
 /-- number of instances + 2: bounds the `spawn_task` ↔ `spawn_on_all_outputs` recursion -/
@@ -1346,6 +1350,7 @@ def respawnOne (g : Graph) (group : List (Int × String)) (completed : Completed
         match st.get? k.1 k.2 with
         | some y => queueOrTrigger st y
         | none => st
+      else if !g.triggerUnpooled then st
       else
         -- the object is not the pooled proxy: it is triggered all the same
         { st with phantoms := st.phantoms ++ [{ (x.reset (status := some .waiting)) with manual := true, wjp := true }] }
